@@ -30,6 +30,7 @@ import (
 type helperInfo struct {
 	sites []ssa.CallInstruction // every static call/go/defer site
 	seam  bool                  // reached through a seam variable: the sites were fixed by registerSeams
+	once  bool                  // a function literal handed directly to (*sync.Once).Do: runs synchronously inside that call
 }
 
 var (
@@ -163,7 +164,27 @@ func syncHelperCallee(i ssa.Instruction) *ssa.Function {
 	if f := seamTarget(call.Call.Value); f != nil && helperOf(f) != nil {
 		return f
 	}
+	if callee, ok := call.Call.Value.(*ssa.Function); ok && len(call.Call.Args) == 2 && callee.String() == "(*sync.Once).Do" {
+		var g *ssa.Function
+		switch a := call.Call.Args[1].(type) {
+		case *ssa.MakeClosure:
+			g, _ = a.Fn.(*ssa.Function)
+		case *ssa.Function:
+			g = a
+		}
+		if info := helperOf(g); info != nil && info.once {
+			return g
+		}
+	}
 	return nil
+}
+
+// TopParent: the outermost enclosing function of a literal.
+func TopParent(fn *ssa.Function) *ssa.Function {
+	for fn != nil && fn.Parent() != nil {
+		fn = fn.Parent()
+	}
+	return fn
 }
 
 // asyncHelperCallee: i is go/defer of a new helper.
@@ -451,6 +472,55 @@ func RegisterNewHelpers(p *Prog, pinned *Pinned) {
 		}
 		cand[fn] = &helperInfo{}
 	}
+	onceCand := map[*ssa.Function]*helperInfo{}
+	// function literals handed directly to (*sync.Once).Do: the literal runs synchronously inside the
+	// call (later callers wait until it has finished), so it is part of the function that contains it
+	// — `closeOnce.Do(func() { a.Close(); b.Close() })` closes both before Do returns
+	for _, fn := range p.AllFuncs {
+		if _, mod := p.ModPkgs[fnPkgPath(TopParent(fn))]; !mod {
+			continue
+		}
+		EachInstrRaw(fn, func(i ssa.Instruction) {
+			call, ok := i.(*ssa.Call)
+			if !ok || call.Call.IsInvoke() || len(call.Call.Args) != 2 {
+				return
+			}
+			if callee, isF := call.Call.Value.(*ssa.Function); !isF || callee.String() != "(*sync.Once).Do" {
+				return
+			}
+			var g *ssa.Function
+			switch a := call.Call.Args[1].(type) {
+			case *ssa.MakeClosure:
+				if refs := a.Referrers(); refs != nil && len(*refs) == 1 {
+					g, _ = a.Fn.(*ssa.Function)
+				}
+			case *ssa.Function:
+				g = a
+			}
+			if g == nil || g.Parent() != fn || len(g.Params) != 0 || len(g.Blocks) == 0 || false {
+				return
+			}
+			hasDefer := false
+			EachInstrRaw(g, func(j ssa.Instruction) {
+				switch j.(type) {
+				case *ssa.Defer, *ssa.RunDefers, *ssa.Go:
+					hasDefer = true
+				}
+			})
+			if hasDefer && !onlyUnlockDefers(g) {
+				return
+			}
+			onceCand[g] = &helperInfo{sites: []ssa.CallInstruction{call}, once: true}
+		})
+	}
+	if len(onceCand) > 0 {
+		helperMu.Lock()
+		for h, info := range onceCand {
+			helperReg[h] = info
+			p.regFns = append(p.regFns, h)
+		}
+		helperMu.Unlock()
+	}
 	if len(cand) == 0 {
 		return
 	}
@@ -565,6 +635,9 @@ func RegisterNewHelpers(p *Prog, pinned *Pinned) {
 	for h, info := range cand {
 		helperReg[h] = info
 		p.regFns = append(p.regFns, h)
+		if info.once {
+			continue
+		}
 		p.Aliases = append(p.Aliases, "new helper "+FuncName(h)+" is treated as part of its caller(s)")
 	}
 	helperMu.Unlock()
